@@ -420,7 +420,8 @@ pub fn run(cfg: &Cfg) {
             sink.oracle(matches!(res, Ok(Err(_))), "an unknown hash algorithm was not rejected", &op);
         } else if has_sha256 {
             sink.op(&op, &show(&res), true);
-        } else if let Ok(Ok(m)) = &res {
+        }
+        if let (false, Ok(Ok(m))) = (unknown_alg, &res) {
             // sha512 only: digests checked against ring. Without left-strip prefixes a key is the path of
             // its file; with them the key no longer says where the file is (it may even name another
             // existing file), so the digest must then be that of some file of the tree.
